@@ -1733,6 +1733,9 @@ func c17Report(r *Run, h *c17Hist, seed uint64, kind, detail string, cfPass bool
 		for _, op := range c.Ops {
 			cost += len(op.Content) / 4000
 		}
+		if kind == "script-hangs" {
+			cost += 8 // (a script that spins by forking sub-shells reaches its CPU limit only after many seconds of wall time)
+		}
 		budget -= cost
 		extra -= 1 + cost
 		if extra <= 0 {
